@@ -15,9 +15,11 @@ import (
 	"os"
 	"path/filepath"
 	"strconv"
+	"strings"
 
 	"github.com/ollama/ollama/api"
 	"github.com/ollama/ollama/discover"
+	"github.com/ollama/ollama/envconfig"
 	"github.com/ollama/ollama/fs/ggml"
 	"github.com/ollama/ollama/llm"
 	"verifharness/hx"
@@ -104,7 +106,18 @@ func writeModel(spec map[string]any) string {
 	return p
 }
 
+var loaded = map[string]*ggml.GGML{} // path -> decoded model: the same *ggml.GGML is handed to the estimator on every call
+
 func load(p string) *ggml.GGML {
+	if g, ok := loaded[p]; ok {
+		return g
+	}
+	g := loadFresh(p)
+	loaded[p] = g
+	return g
+}
+
+func loadFresh(p string) *ggml.GGML {
 	f, err := os.Open(p)
 	if err != nil {
 		panic(err)
@@ -130,8 +143,42 @@ func main() {
 	os.Unsetenv("OLLAMA_FLASH_ATTENTION")
 	os.Unsetenv("OLLAMA_KV_CACHE_TYPE")
 
-	hx.Loop(func(c map[string]any) any {
+	hx.Loop(handle)
+}
+
+// kvCacheType mirrors the expression EstimateGPULayers uses to pick the KV cache type (public API only), so that the
+// inputs read for the Coq model are the ones the estimator reads under the same environment
+func kvCacheType(f *ggml.GGML) string {
+	if envconfig.FlashAttention() && discover.GetGPUInfo().FlashAttentionSupported() && f.SupportsFlashAttention() {
+		requested := strings.ToLower(envconfig.KvCacheType())
+		if requested != "" && f.SupportsKVCacheType(requested) {
+			return requested
+		}
+	}
+	return ""
+}
+
+func handle(c map[string]any) any {
+	{
 		op, _ := c["op"].(string)
+		if op == "seq" {
+			// several calls in this one process, in order: state carried from one call to the next would show
+			var outs []any
+			for _, st := range c["steps"].([]any) {
+				outs = append(outs, hx.Guard(func() any { return handle(st.(map[string]any)) }))
+			}
+			return map[string]any{"steps": outs}
+		}
+		if fa, _ := c["flash"].(bool); fa {
+			os.Setenv("OLLAMA_FLASH_ATTENTION", "1")
+		} else {
+			os.Unsetenv("OLLAMA_FLASH_ATTENTION")
+		}
+		if kt, _ := c["kvtype"].(string); kt != "" {
+			os.Setenv("OLLAMA_KV_CACHE_TYPE", kt)
+		} else {
+			os.Unsetenv("OLLAMA_KV_CACHE_TYPE")
+		}
 		if op == "bylib" {
 			gl := gpuList(c["gpus"])
 			var out [][]int
@@ -173,8 +220,9 @@ func main() {
 		bc := int(f.KV().BlockCount())
 		ctxPlain := opts.NumCtx
 		ctxMM := max(opts.NumCtx, 2048)
-		kvP, gpP, gfP := f.GraphSize(uint64(ctxPlain), uint64(min(ctxPlain, opts.NumBatch)), numParallel, "")
-		kvM, gpM, gfM := f.GraphSize(uint64(ctxMM), uint64(min(ctxMM, opts.NumBatch)), numParallel, "")
+		kvct := kvCacheType(f)
+		kvP, gpP, gfP := f.GraphSize(uint64(ctxPlain), uint64(min(ctxPlain, opts.NumBatch)), numParallel, kvct)
+		kvM, gpM, gfM := f.GraphSize(uint64(ctxMM), uint64(min(ctxMM, opts.NumBatch)), numParallel, kvct)
 		blocks := make([][]any, bc)
 		for i := range bc {
 			blocks[i] = []any{optSize(layers, fmt.Sprintf("blk.%d", i)), s64(kvP[i]), s64(kvM[i])}
@@ -196,7 +244,7 @@ func main() {
 		if projIn == nil {
 			in["proj"] = [][]string{}
 		}
-		res := map[string]any{"in": in}
+		res := map[string]any{"in": in, "kvct": kvct}
 		gl := gpuList(c["gpus"])
 		switch op {
 		case "probe":
@@ -229,7 +277,7 @@ func main() {
 			return map[string]any{"harness_error": "unknown op"}
 		}
 		return res
-	})
+	}
 }
 
 func gpuList(v any) discover.GpuInfoList {
